@@ -302,6 +302,7 @@ pub const SCHEMA: &[(&str, Kind)] = &[
     ("n_int", Kind::Int),
     ("n_small", Kind::Int),
     ("n_big", Kind::Int),
+    ("n_edge", Kind::Int),
     ("n_f", Kind::Float),
     ("n_odd", Kind::Float),
     ("b_t", Kind::Bool),
@@ -333,7 +334,7 @@ pub fn gen_context(rng: &Rng, variant: usize) -> SCtx {
         if variant == 2 && rng.chance(1, 3) {
             continue; // undefined in the sparse context
         }
-        let perturb = variant == 2 && rng.chance(1, 4);
+        let perturb = variant == 2 && *name != "n_small" && rng.chance(1, 4);
         let v = if perturb {
             gen_any(rng, 2)
         } else {
@@ -346,6 +347,13 @@ pub fn gen_context(rng: &Rng, variant: usize) -> SCtx {
                 },
                 Kind::Int => match *name {
                     "n_small" => SVal::I64(rng.irange(0, 6)),
+                    // the positive extremes (n_big has the unsigned / negative ones)
+                    "n_edge" => match rng.below(4) {
+                        0 => SVal::I128(i128::MAX.to_string()),
+                        1 => SVal::I64(i64::MAX),
+                        2 => SVal::I128((i128::MAX - 1).to_string()),
+                        _ => SVal::U64(u32::MAX as u64 + 1),
+                    },
                     "n_big" => match rng.below(4) {
                         0 => SVal::U128(u128::MAX.to_string()),
                         1 => SVal::I128(i128::MIN.to_string()),
